@@ -14,7 +14,7 @@ SCR_SYN = [["system"], ["t_sample"], ["time_step", "time step", "dt"], ["t_max",
 
 
 def gen(tier, seed):
-    L = ["from harness.c12lib import *", ""]
+    L = ["from harness.c12lib import *", "from harness.c12files import *", ""]
     conds = []
 
     def add(fn, sig, body, pre, what, args, timeout=None, viol=None):
@@ -72,16 +72,35 @@ def gen(tier, seed):
               "    sc = rdscript_from_dict({'system': rdsystem_to_dict(mk_system(0, 0, 0)), 't_sample': [0, 2.0]})",
               "    ok = ok and sc.time_step.value == 1e-3 and sc.t_max.value == 2.0 and sc.sampling_policy == 'on_t_sample' and sc.sampling_interval.value == 1 and sc.init_state_processing == 'auto'",
               "    return ok", ""])
+    # ---- file level (real file system, throw-away directory per evaluation)
+    for kind in ("network", "space", "system", "script"):
+        add("file_%s" % kind, "c12-file-%s" % kind, "file_rt(%r, u, fs, form)" % kind, ["pre: 0 <= u <= 4 and 0 <= fs <= 1 and 0 <= form <= 3"],
+            "save_rd%s / load_rd%s: the loaded object has the same physical content and saving it again writes the same JSON (relative, absolute, sub-directory paths; loading from another working directory)" % (kind, kind),
+            "u: int, fs: int, form: int", viol="a %s does not survive its save / load functions" % kind)
+        conds[-1]["structure"] = "file round trip"
+    add("file_traj", "c12-file-trajectory", "traj_rt(u, fs, form, sep, iname, suffix, cg)",
+        ["pre: 0 <= u <= 1 and 0 <= fs <= 1 and 0 <= form <= 3 and 0 <= sep <= 1 and 0 <= iname <= 7 and 0 <= suffix <= 1 and 0 <= cg <= 1"],
+        "save_rdtrajectory / load_rdtrajectory, both storage modes, 8 file names with and without the .json suffix: exactly <name>.json (+ <name>_data.npy next to it) is written and the loaded trajectory has the same data, times, system, script, engine text and cgmap",
+        "u: int, fs: int, form: int, sep: int, iname: int, suffix: int, cg: int", viol="a trajectory does not survive save / load, or its files are written under another name or place")
+    conds[-1]["structure"] = "file round trip"
+    add("file_traj_pair", "c12-file-trajectory", "traj_no_collision(form, i1, i2, s1, s2)", ["pre: 0 <= form <= 2 and 0 <= i1 <= 7 and 0 <= i2 <= 7 and 0 <= s1 <= 1 and 0 <= s2 <= 1"],
+        "two trajectories saved under different names in one directory are both loaded back unchanged (no shared data file)", "form: int, i1: int, i2: int, s1: int, s2: int",
+        viol="two trajectories saved under different names share a data file")
+    conds[-1]["structure"] = "file round trip"
+    add("file_multi", "c12-file-multi", "multi_file(u, fs, arr, form)", ["pre: 0 <= u <= 4 and 0 <= fs <= 1 and 0 <= arr <= 2 and 0 <= form <= 3"],
+        "multi-file layout: script file -> system file -> network / space files in a sub-directory + external state / chemostat / cell-environment arrays (.npy, .txt); relative paths resolve against the naming file, whatever the working directory",
+        "u: int, fs: int, arr: int, form: int", viol="a multi-file description is not read back as the model it describes")
+    conds[-1]["structure"] = "file round trip"
     conds.append({"fn": "h_defaults", "what": "omitted optional keys take the documented defaults (species, reaction, grid, script)", "sig": "c12-defaults", "structure": "dict round trip"})
     return "\n".join(L), conds
 
 
 def run(rec):
-    rec.assume("decided at the dictionary and JSON-text levels; the save/load functions, multi-file layouts, relative paths and external array files are file I/O, which CrossHair blocks: NOT covered (see not-applicable clause in DESIGN.md)")
+    rec.assume("dictionary and JSON-text levels, plus the FILE level: save_* / load_* of networks, spaces, systems, scripts and trajectories (both storage modes), multi-file layouts with relative / absolute paths and external .npy / .txt arrays, executed on the real file system in a throw-away directory per evaluation (file I/O cannot be made symbolic: these legs are enumerated over path forms, names, unit-system and structure choices)")
     rec.assume("every parameter of these conditions is a small structural choice, so they are decided by EXHAUSTIVE ENUMERATION of the finite box in plain CPython (vt/enumrun.py), not by a solver: CrossHair's tracing makes one path cost ~1000 calls and adds no symbolic content here")
     rec.assume("structure choices (own vs inherited units at each level, scalar vs per-environment dictionaries, labelled vs unlabelled, empty sides, boundary condition per axis, sampling policy, init mode, sizes, seed) are solver variables; magnitudes are concrete because they pass through str(float) (CPython repr/float trusted)")
     for fn in ("species/reaction/rdnetwork _to_dict/_from_dict", "rdgridspace/rdgraphspace(node, edge) _to_dict/_from_dict", "rdsystem_to_dict/from_dict", "rdscript_to_dict/from_dict", "unitarray_to_dict/from_dict",
-               "valproc.process_input_dict_keys/retrive_units_system_from_dict/format_unitvar_for_save"):
+               "valproc.process_input_dict_keys/retrive_units_system_from_dict/format_unitvar_for_save", "save_/load_ rdnetwork, rdspace, rdsystem, rdscript, rdtrajectory; filepath.*; text_array_rw"):
         rec.encoded(fn)
     text, conds = gen(rec.tier, rec.seed)
     mod = pysym.write_module("hgen_C12", text)
